@@ -1,8 +1,17 @@
 (* C14/Proofs2.v — round 5: every duplicate of the requesting id starts from the exception context;
    /proc/self/status -> Pid. *)
 From Coq Require Import Lia.
+From Coq Require String Ascii.
 From RM Require Import C08.Proofs C14.Model C14.Proofs.
 Open Scope Z_scope.
+
+(* string literals for the Examples of Properties.v (not part of the extracted model) *)
+Fixpoint zs (s : String.string) : list Z :=
+  match s with
+  | String.EmptyString => []
+  | String.String c r => Z.of_nat (Ascii.nat_of_ascii c) :: zs r
+  end.
+Arguments zs s%string_scope.
 
 (* ------------------------------------------------------------------ duplicate thread ids *)
 Lemma duplicates_context d ec i ti ci :
@@ -177,3 +186,54 @@ Lemma status_pid_absent lines : lines <> [] ->
   (forall l k w, In l lines -> kv_of_line l = Some (k, w) -> zlist_eqb k KEY_PID = false) ->
   status_pid (join_lines lines) = 0.
 Proof. intros Hne Hnl H. unfold status_pid. rewrite split_join by assumption. apply pid_of_lines_none. exact H. Qed.
+
+(* ------------------------------------------------------------------ Mac / iOS reason strings *)
+Section MacStrings.
+Variable lk : Z -> Z -> bool.
+Hypothesis Hmac : forall v, lk EN_MAC v = true -> name_of NAMES_ExceptionCodeMac v <> None.
+Hypothesis Hkern : forall v, lk EN_MAC_KERN v = true -> name_of NAMES_ExceptionCodeMacBadAccessKernType v <> None.
+Hypothesis Haa : forall v, lk EN_MAC_ACC_ARM v = true -> name_of NAMES_ExceptionCodeMacBadAccessArmType v <> None.
+Hypothesis Hap : forall v, lk EN_MAC_ACC_PPC v = true -> name_of NAMES_ExceptionCodeMacBadAccessPpcType v <> None.
+Hypothesis Hax : forall v, lk EN_MAC_ACC_X86 v = true -> name_of NAMES_ExceptionCodeMacBadAccessX86Type v <> None.
+Hypothesis Hia : forall v, lk EN_MAC_INS_ARM v = true -> name_of NAMES_ExceptionCodeMacBadInstructionArmType v <> None.
+Hypothesis Hip : forall v, lk EN_MAC_INS_PPC v = true -> name_of NAMES_ExceptionCodeMacBadInstructionPpcType v <> None.
+Hypothesis Hix : forall v, lk EN_MAC_INS_X86 v = true -> name_of NAMES_ExceptionCodeMacBadInstructionX86Type v <> None.
+Hypothesis Hra : forall v, lk EN_MAC_ARI_ARM v = true -> name_of NAMES_ExceptionCodeMacArithmeticArmType v <> None.
+Hypothesis Hrp : forall v, lk EN_MAC_ARI_PPC v = true -> name_of NAMES_ExceptionCodeMacArithmeticPpcType v <> None.
+Hypothesis Hrx : forall v, lk EN_MAC_ARI_X86 v = true -> name_of NAMES_ExceptionCodeMacArithmeticX86Type v <> None.
+Hypothesis Hsw : forall v, lk EN_MAC_SOFTWARE v = true -> name_of NAMES_ExceptionCodeMacSoftwareType v <> None.
+Hypothesis Hba : forall v, lk EN_MAC_BRK_ARM v = true -> name_of NAMES_ExceptionCodeMacBreakpointArmType v <> None.
+Hypothesis Hbp : forall v, lk EN_MAC_BRK_PPC v = true -> name_of NAMES_ExceptionCodeMacBreakpointPpcType v <> None.
+Hypothesis Hbx : forall v, lk EN_MAC_BRK_X86 v = true -> name_of NAMES_ExceptionCodeMacBreakpointX86Type v <> None.
+Hypothesis Hres : forall v, lk EN_MAC_RESOURCE v = true -> name_of NAMES_ExceptionCodeMacResourceType v <> None.
+Hypothesis Hgrd : forall v, lk EN_MAC_GUARD v = true -> name_of NAMES_ExceptionCodeMacGuardType v <> None.
+
+Lemma mac_general_some code flags : name_of NAMES_ExceptionCodeMac code <> None ->
+  reason_string (MacGeneral, [code; flags]) <> None.
+Proof.
+  intro H. cbn [reason_string]. destruct (name_of NAMES_ExceptionCodeMac code) as [n|]; [|congruence].
+  destruct (str_eqb n S_SIMULATED); discriminate.
+Qed.
+Lemma resource_some ty a b : name_of NAMES_ExceptionCodeMacResourceType ty <> None ->
+  reason_string (MacResource, [ty; a; b]) <> None.
+Proof. intro H. cbn [reason_string]. unfold exc_resource_string. destruct (name_of NAMES_ExceptionCodeMacResourceType ty); [discriminate|congruence]. Qed.
+Lemma guard_some ty a b : name_of NAMES_ExceptionCodeMacGuardType ty <> None ->
+  reason_string (MacGuard, [ty; a; b]) <> None.
+Proof. intro H. cbn [reason_string]. unfold exc_guard_string. destruct (name_of NAMES_ExceptionCodeMacGuardType ty); [discriminate|congruence]. Qed.
+
+Lemma mac_reason_string c e o : o = OsMac \/ o = OsIos ->
+  reason_string (crash_reason lk o c e) <> None.
+Proof.
+  intro Ho. assert (E : crash_reason lk o c e =
+                        match mac_reason lk c e with Some x => x | None => (Unknown, [e_code e; e_flags e]) end)
+    by (destruct Ho; subst o; reflexivity).
+  rewrite E. unfold mac_reason. destruct (lk EN_MAC (e_code e)) eqn:L; cbn [negb]; [|discriminate].
+  pose proof (mac_general_some (e_code e) (e_flags e) (Hmac _ L)) as G. unfold refine.
+  destruct c;
+  repeat match goal with
+         | |- context [if ?b then _ else _] => let E := fresh "E" in destruct b eqn:E
+         end; try exact G;
+  try (apply resource_some; auto); try (apply guard_some; auto);
+  cbn [reason_string]; apply prefixed_some; auto.
+Qed.
+End MacStrings.
